@@ -192,6 +192,18 @@ pub fn nested_twin(a: u64, big: Big) -> Result<u64, String> {
     while i < f(1) { i += m2(); if cond() { break; } }
     match fallible() { Ok(v) => { m3(); Ok(v + big.a) } Err(e) => { m4(); Err(e) } }
 }
+// ---- numeric levels (documented in tracing-attributes: 1 = TRACE ... 5 = ERROR)
+#[instrument(level = 1)] pub fn digit1() { m1(); }
+pub fn digit1_twin() { m1(); }
+#[instrument(level = 2)] pub fn digit2() { m1(); }
+pub fn digit2_twin() { m1(); }
+#[instrument(level = 3)] pub fn digit3() { m1(); }
+pub fn digit3_twin() { m1(); }
+#[instrument(level = 4)] pub fn digit4() { m1(); }
+pub fn digit4_twin() { m1(); }
+#[instrument(level = 5)] pub fn digit5() { m1(); }
+pub fn digit5_twin() { m1(); }
+
 pub mod generated;
 
 // ---- async-trait style with a qualified path to Box::pin (what macro-generated code writes), and an unboxed async block
